@@ -16,6 +16,7 @@ pub mod registry;
 pub mod weight;
 pub mod incentive;
 pub mod pair;
+pub mod vaultchain;
 
 pub fn make(name: &str, variant: &str) -> Option<Box<dyn Engine>> {
     match name {
@@ -35,6 +36,7 @@ pub fn make(name: &str, variant: &str) -> Option<Box<dyn Engine>> {
         "weight" => Some(Box::new(weight::Weight::default())),
         "incentive" => Some(Box::new(incentive::Incentive::default())),
         "pair" => Some(Box::new(pair::PairEngine::new(variant))),
+        "vaultchain" => Some(Box::new(vaultchain::VaultChain::default())),
         _ => None,
     }
 }
